@@ -24,7 +24,40 @@ func TestMain(m *testing.M) {
 	vt.Main(m)
 }
 
+// base is the instant the receive times of a case are counted from; drawn per case so that some histories start
+// shortly before an NTP era boundary (7 February 2036, or the next one in 2172) and cross it.
 var base = time.Unix(1700000000, 0)
+
+const era1 = 2085978496 // Unix seconds of NTP era 1's start
+
+// drawBase picks the case's base: 2023, or an era boundary minus lo..lo+span nanoseconds.
+var beforeBoundary int64
+
+func drawBase(t *rapid.T, lo, span int64) string {
+	beforeBoundary = 0
+	kind := rapid.SampledFrom([]string{"2023", "crosses-2036", "crosses-2036", "crosses-2172"}).Draw(t, "base")
+	switch kind {
+	case "2023":
+		base = time.Unix(1700000000, 0)
+	case "crosses-2036":
+		beforeBoundary = lo + rapid.Int64Range(0, span).Draw(t, "before-boundary")
+		base = time.Unix(era1, 0).Add(-time.Duration(beforeBoundary))
+	default:
+		beforeBoundary = lo + rapid.Int64Range(0, span).Draw(t, "before-boundary")
+		base = time.Unix(era1+1<<32, 0).Add(-time.Duration(beforeBoundary))
+	}
+	return kind
+}
+
+func u64(a ntp.Time64) uint64 { return uint64(a.Seconds)<<32 | uint64(a.Fraction) }
+
+// less orders two stored timestamps by the instants they stand for (the harness's own reading, not the store's
+// comparison): every instant of a case lies within seconds of base, so the signed distance from base's own
+// timestamp decides, whatever era the two fall into.
+func less(a, b ntp.Time64) bool {
+	b0 := uint64(uint32(base.Unix()+2208988800)) << 32
+	return int64(u64(a)-b0) < int64(u64(b)-b0)
+}
 
 func req() ntp.Packet {
 	var p ntp.Packet
@@ -84,11 +117,11 @@ func walk(mostRecent map[string]ntp.Time64, ordered map[string]bool) string {
 					return false
 				}
 			}
-			if i == 0 || server.LessV(maxRx, p.Rx) {
+			if i == 0 || less(maxRx, p.Rx) {
 				maxRx = p.Rx
 			}
 		}
-		if server.LessV(it.Qval, maxRx) {
+		if less(it.Qval, maxRx) {
 			msg = fmt.Sprintf("client %s is ranked by %v, older than its most recent stored exchange %v", it.Key, it.Qval, maxRx)
 			return false
 		}
@@ -109,7 +142,7 @@ func walk(mostRecent map[string]ntp.Time64, ordered map[string]bool) string {
 		return msg
 	}
 	for i := 1; i < len(qvals); i++ {
-		if parent := (i - 1) / 2; server.LessV(qvals[i], qvals[parent]) {
+		if parent := (i - 1) / 2; less(qvals[i], qvals[parent]) {
 			return fmt.Sprintf("heap order violated at position %d: %v ranks before its parent %v", i, qvals[i], qvals[parent])
 		}
 	}
@@ -127,6 +160,7 @@ var recA = ev.New("c07/structure", "rapid state machine over handler + tx-timest
 func TestPropStructure(t *testing.T) {
 	vt.Check(t, 2500, 25000, func(t *rapid.T) {
 		server.ResetV()
+		era := drawBase(t, 1000, 300_000)
 		nc := rapid.OneOf(rapid.IntRange(3, 12), rapid.IntRange(3, 200)).Draw(t, "nclients")
 		clients := make([]string, nc)
 		for i := range clients {
@@ -244,6 +278,9 @@ func TestPropStructure(t *testing.T) {
 		for l := range labels {
 			ls = append(ls, l)
 		}
+		if era != "2023" && tick >= beforeBoundary {
+			ls = append(ls, "history-crosses-era-boundary")
+		}
 		recA.Eval(len(labels) > 0, ev.Hash(fmt.Sprint(log)), func() any { return log[:min(len(log), 12)] }, ls...)
 		if steps > 1 {
 			recA.Count(int64(steps - 1))
@@ -272,6 +309,8 @@ func TestPropCapacity(t *testing.T) {
 	vt.Check(t, 2, 6, func(t *rapid.T) {
 		server.ResetV()
 		const N = server.TssCapV
+		// the boundary, if any, falls into the fill or into the steps after it
+		era := drawBase(t, 1_000_000, int64(N)*10+300_000)
 		order := rapid.SampledFrom([]string{"increasing", "decreasing", "shuffled"}).Draw(t, "fill-order")
 		mult := rapid.Int64Range(1, 1<<20).Draw(t, "shuffle-mult")*2 + 1
 		model := map[string]*mItem{}
@@ -433,7 +472,8 @@ func TestPropCapacity(t *testing.T) {
 		if nmap != len(model) {
 			fail("store holds %d clients, model %d", nmap, len(model))
 		}
-		recB.Sample(map[string]any{"fill_order": order, "steps": nsteps, "labels": labels, "last_steps": log[max(0, len(log)-8):]})
+		recB.Label("base-" + era)
+		recB.Sample(map[string]any{"base": base.UTC().Format(time.RFC3339Nano), "fill_order": order, "steps": nsteps, "labels": labels, "last_steps": log[max(0, len(log)-8):]})
 		server.ResetV()
 	})
 }
